@@ -134,7 +134,7 @@ for v in $VARS; do
     if [ -n "$REPLAY_CASE" ] && [ "$REPLAY_CASE" != "__all__" ]; then export VERIF_CASE="$REPLAY_CASE"; fi
     if [ "$kind" = race ]; then
       export VERIF_RACE_LOG="$PWD/$RUN/race.$i"
-      export GORACE="halt_on_error=0 log_path=$PWD/$RUN/race.$i"
+      export GORACE="halt_on_error=0 exitcode=0 log_path=$PWD/$RUN/race.$i"
     fi
     exec timeout -s QUIT -k 20 "$LIMIT" ".build/bin/mon$PROP$BINTAG.$kind" >"$RUN/out.$i" 2>"$RUN/err.$i"
   )
